@@ -193,7 +193,7 @@ IsDir(T, p) == p = <<>> \/ (p \in DOMAIN T /\ T[p].k = "d")
 Children(T, d) == {p[Len(p)] : p \in {q \in DOMAIN T : Len(q) = Len(d) + 1 /\ Front(q) = d}}
 
 Fail == [ok |-> FALSE, at |-> <<>>]
-Fuel == 8          \* SYMLOOP_MAX stands in; the trees used have no loops
+Fuel == 40         \* SYMLOOP_MAX stands in (Linux follows at most 40 links in one resolution)
 
 \* Resolve the components `comps` from the file at physical path `cur`,
 \* following every symbolic link (also the last one).  An empty component or
